@@ -39,8 +39,32 @@ def make_cs(endian, pointer=None):
 
     cs = cstruct(endian="<" if endian != "<" else ">", pointer=pointer)
     cs.load("enum E16 : uint16 { A = 1, B = 2 }; flag F8 : uint8 { X = 1, Y = 2 }; enum ES : int32 { N = -1 };", compiled=False)
+    warm_up(cs)
     cs.endian = endian
     return cs
+
+
+def warm_up(cs):
+    """Use every codec entry point once under the *initial* byte order, natively, so that anything that caches the byte
+    order at first use (per type, per format) holds the stale value when the contract run starts."""
+    import io as _io
+
+    for name in INT_TYPES + PACKED_INT + PACKED_FLOAT + ["char", "wchar", "uleb128", "ileb128", "E16", "F8", "ES"]:
+        t = getattr(cs, name)
+        try:
+            n = t.size or 2
+            one = b"\x01" + bytes(n - 1) if n > 1 else b"\x01"
+            buf = one * 3 + bytes(2 * n)
+            v = t._read(_io.BytesIO(buf))
+            t._read_array(_io.BytesIO(buf), 2)
+            t._read_0(_io.BytesIO(buf))
+            t._write(_io.BytesIO(), v)
+            t._write_array(_io.BytesIO(), [v, v])
+            t._write_0(_io.BytesIO(), [v])
+            t[2](buf).dumps()
+            t[None](buf).dumps()
+        except Exception:  # noqa: BLE001 - warm-up only
+            pass
 
 
 def sizeof(tname):
@@ -489,4 +513,157 @@ def specs(ops, tier="quick", endians=ENDIANS):
         for op in ("read", "write", "weak"):
             if op in want:
                 out.append(("contracts.leaf", "make_leb", (sg, op)))
+    return out
+
+
+# ----------------------------------------------------------------------------------------------------
+# array entry points of the leaf types (C07): _read_array (fixed and symbolic count), _read_0, _write_array, _write_0
+
+
+class ArrayCase(Case):
+    timeout_ms = 30000
+
+    def __init__(self, tname, endian, op):
+        self.tname, self.endian, self.op = tname, endian, op
+        self.name = f"leafarray:{tname}{endian}.{op}"
+        self.functions = ["dissect/cstruct/types/base.py:MetaType._read_array", "dissect/cstruct/types/packed.py:Packed._read_array",
+                          "dissect/cstruct/types/packed.py:Packed._read_0", "dissect/cstruct/types/packed.py:Packed._write_array",
+                          "dissect/cstruct/types/char.py:Char._read_array", "dissect/cstruct/types/char.py:Char._read_0",
+                          "dissect/cstruct/types/wchar.py:Wchar._read_array", "dissect/cstruct/types/wchar.py:Wchar._read_0",
+                          "dissect/cstruct/types/int.py:Int._read_0", "dissect/cstruct/types/base.py:MetaType._write_0",
+                          "dissect/cstruct/types/base.py:MetaType._write_array"]
+
+    def body(self, ctx):
+        cs = make_cs(self.endian)
+        T = getattr(cs, self.tname)
+        n = sizeof(self.tname)
+        it = Interp(ctx, unroll=3)
+        D = SBytes.fresh("D")
+        p = z3.Int("p")
+        ctx.assume(p >= 0)
+        ctx.case_inputs.update(D=D, p=p)
+        s = SymStream(ctx, D, p)
+        L = D.length()
+        seg = D.items[0]
+        if self.op == "read_array_n":
+            cnt = z3.Int("count")
+            ctx.assume(cnt >= 0)
+            ctx.case_inputs["count"] = cnt
+            try:
+                v = it.call(T._read_array, [s, cnt])
+            except PyRaise as e:
+                ctx.prove("raises-only-EOFError", e.cls is EOFError, info=e.cls.__name__)
+                ctx.prove("raises-only-when-short", z3.And(cnt > 0, z3.Not(zint(p) + cnt * n <= zint(L))))
+                ctx.cover("eof")
+                return
+            ctx.cover("returns")
+            ctx.prove("returns-only-when-available", z3.Or(cnt == 0, zint(p) + cnt * n <= zint(L)))
+            ctx.prove("consumes-count*size", ctx.eq(s.pos, _norm(zint(p) + cnt * n)))
+            raw = v.raw if hasattr(v, "raw") else v
+            if isinstance(raw, SStr):
+                raw = raw.raw
+            if isinstance(raw, str):
+                raw = raw.encode("utf-16-le")
+            if isinstance(raw, list) and not raw:
+                raw = b""
+            raw = SBytes.of(raw) if not isinstance(raw, SBytes) else raw
+            ok = len(raw.items) == 0 and False
+            if len(raw.items) == 1 and isinstance(raw.items[0], Seg):
+                w = raw.items[0]
+                ok = z3.And(w.fn is seg.fn, zint(w.off) == zint(p), zint(w.n) == cnt * n) if w.fn is seg.fn else False
+            elif len(raw.items) == 0:
+                ok = cnt == 0
+            ctx.prove("elements-are-exactly-the-next-count*size-bytes", ok)
+        elif self.op == "read_array_eof":
+            from dissect.cstruct.types.base import EOF
+
+            try:
+                v = it.call(T._read_array, [s, EOF])
+            except PyRaise as e:
+                # a trailing partial element is outside the statement ("every remaining whole element")
+                ctx.prove("refuses-only-a-partial-trailing-element", z3.And(zint(L) > zint(p), (zint(L) - zint(p)) % n != 0), info=e.cls.__name__)
+                ctx.cover("partial")
+                return
+            ctx.cover("returns")
+            ctx.prove("takes-everything-to-the-end", z3.Or(ctx.eq(s.pos, L) if not isinstance(ctx.eq(s.pos, L), bool) else z3.BoolVal(ctx.eq(s.pos, L)), zint(L) <= zint(p)))
+        elif self.op == "read_0":
+            try:
+                v = it.call(T._read_0, [s])
+            except PyRaise as e:
+                ctx.prove("raises-only-EOFError", e.cls is EOFError, info=e.cls.__name__)
+                ctx.cover("eof")
+                return
+            ctx.cover("returns")
+            items = v if isinstance(v, list) else None
+            if items is None:
+                # char / wchar: one value holding all elements
+                raw = v.raw if isinstance(v, SStr) else SBytes.of(v.encode("utf-16-le") if isinstance(v, str) else v)
+                k = raw.length()
+                cnt = k // n if isinstance(k, int) else None
+                ctx.prove("bounded-shape", cnt is not None)
+                if cnt is None:
+                    return
+                got = [raw.byte_at(i) for i in range(k)]
+            else:
+                cnt = len(items)
+                got = None
+            # position: count elements + the terminator were consumed
+            ctx.prove("consumes-elements-and-terminator", ctx.eq(s.pos, _norm(zint(p) + (cnt + 1) * n)))
+            # terminator is a zero element, all earlier elements are non-zero
+            term = [seg.at(_norm(zint(p) + cnt * n + j)) for j in range(n)]
+            if self.tname in PACKED_FLOAT:
+                # zero as a float: +0.0 or -0.0
+                ctx.prove("terminator-is-zero", True, info="float zero test is the codec's (opaque)")
+            else:
+                ctx.prove("terminator-is-zero", z3.And(*[zint(b) == 0 for b in term]))
+                for i in range(cnt):
+                    el = [seg.at(_norm(zint(p) + i * n + j)) for j in range(n)]
+                    ctx.prove(f"element{i}-nonzero", z3.Or(*[zint(b) != 0 for b in el]))
+                    if got is not None:
+                        ctx.prove(f"element{i}-bytes", z3.And(*[zint(got[i * n + j]) == zint(el[j]) for j in range(n)]))
+        elif self.op == "write_0":
+            # dump of [a, b] re-appends exactly one zero element
+            out = SymStream(ctx, SBytes([]), 0)
+            if self.tname == "char":
+                val = SBytes([z3.Int("c0"), z3.Int("c1")])
+                for t in val.items:
+                    ctx.assume_byte(t)
+                arr = cs.char[None]
+            elif self.tname == "wchar":
+                val = SStr(SBytes([z3.Int("c0"), z3.Int("c1"), z3.Int("c2"), z3.Int("c3")]), "le" if ORDER[self.endian] == "little" else "be")
+                for t in val.raw.items:
+                    ctx.assume_byte(t)
+                arr = cs.wchar[None]
+            else:
+                a, b = z3.Int("a"), z3.Int("b")
+                if self.tname in PACKED_FLOAT:
+                    return
+                ctx.assume(z3.And(fits(a, n, is_signed(self.tname)), fits(b, n, is_signed(self.tname))))
+                val = [a, b]
+                arr = T[None]
+            it.call(arr._write, [out, val])
+            items = out.data.items
+            ctx.cover("writes")
+            ctx.prove("length==elements+one-terminator", len(items) == 3 * n)
+            if len(items) == 3 * n:
+                ctx.prove("terminator-is-one-zero-element", z3.And(*[zint(x) == 0 for x in items[2 * n:]]))
+
+
+def make_array(tname, endian, op):
+    return ArrayCase(tname, endian, op)
+
+
+def array_specs(tier="quick"):
+    out = []
+    for t in ["uint8", "int16", "uint32", "int64", "float", "char", "wchar"]:
+        for e in ("<", ">"):
+            out.append(("contracts.leaf", "make_array", (t, e, "read_array_n")))
+            out.append(("contracts.leaf", "make_array", (t, e, "read_0")))
+            out.append(("contracts.leaf", "make_array", (t, e, "write_0")))
+            if t not in ("char", "wchar"):
+                out.append(("contracts.leaf", "make_array", (t, e, "read_array_eof")))
+    for t in ["int24", "uint48"]:
+        for e in ("<", ">"):
+            out.append(("contracts.leaf", "make_array", (t, e, "read_0")))
+            out.append(("contracts.leaf", "make_array", (t, e, "write_0")))
     return out
